@@ -10,7 +10,7 @@ from ..tlc import RawTLA, MachineryError
 MODULES = {"LwRing", "LwMatrix", "LwFock", "LwCircuitDefs", "LwEmuDefs", "LwCircuit"}
 DEFAULTS = dict(Scenario="single", NUs={3}, PNu=3, TNu=(3, 2), NObj=1, Numeric=True, MaxLen=2, MaxRej=0, MaxAnc=0,
                 Kinds={"bs"}, BadModes=RawTLA("{}"), Rids={1}, Convs={"Rx"}, Lqs={0}, Pids={1}, LossQs={1}, BadVals=False,
-                SwapLevel=0, UIds={"H"}, HeraldNs={0, 1}, Targets={1}, AddPairs=RawTLA("{}"), TmplLoss=False,
+                SwapLevel=0, UIds={"H"}, HeraldNs={0, 1}, Targets={1}, AddPairs=RawTLA("{}"), TmplLoss=False, TmplU=False,
                 Ordered=False, MaxHer=(2, 2, 2, 2), MaxAdds=3, RejLast=True, MaxComp=99, NPar=0, ParKinds=(), ParInit=(), ParVals=RawTLA("{}"),
                 DispArgs=RawTLA("{}"), ModeCap=99, DispMin=0, MaxPhot=2, PSU=RawTLA("{{}}"))
 
@@ -227,7 +227,7 @@ def float_reads(chk, c, term_c, S, order, rng, reads, mine, rec):
                     todo.append((("ok", "sdist", 0, tuple(in2)), er.sampler_dist(term_c, S, tuple(in2))))
     if "analyze" in reads:
         todo.append((("ok", "analyze", 0, ins, frozenset()), er.analyzer_table(term_c, S, ins, frozenset(), lossy)))
-    if "quick" in reads and nph > 0:
+    if "quick" in reads:
         pnr = rng.random() < 0.5
         todo.append((("ok", "quick", 0, ins, frozenset(), pnr), er.quick_table(term_c, S, ins, frozenset(), pnr)))
     before = ad.snapshot(c)
